@@ -129,6 +129,8 @@ type Thread struct {
 	granted bool // scheduler already let this thread perform its pending visible op
 	Name    string
 	Died    string // escaped panic message
+	NID     int    // logical id in native schedule replay (-1: goroutine started outside instrumented files)
+	opRecorded bool
 	clock   []int  // vector clock
 	HeldMu  map[Ptr]int
 }
@@ -187,6 +189,7 @@ type Machine struct {
 	access       map[raceKey]*accessRec
 	raceDetect    bool
 	noAdvanceNext bool
+	nextNID       int
 	probeName     string
 	facts         map[string]bool
 	model         map[string]uint64
